@@ -11,7 +11,11 @@ use serde_json::{json, Value};
 use crate::model::{render_lines, Line};
 use crate::sched::{self, Key};
 
-pub const VERIF: &str = "/verif";
+/// root of the verification tree: /verif, or the snapshot a background run works in (VERIF_ROOT)
+pub fn verif_root() -> &'static str {
+    static R: std::sync::OnceLock<String> = std::sync::OnceLock::new();
+    R.get_or_init(|| std::env::var("VERIF_ROOT").ok().filter(|s| !s.is_empty()).unwrap_or_else(|| "/verif".to_string()))
+}
 
 #[derive(Clone, Copy, PartialEq, Eq, Debug)]
 pub enum Tier {
@@ -300,7 +304,7 @@ pub struct Finding {
 }
 
 pub fn load_findings(property: &str) -> Vec<Finding> {
-    let path = format!("{VERIF}/known_findings.json");
+    let path = format!("{}/known_findings.json", verif_root());
     let Ok(txt) = std::fs::read_to_string(&path) else {
         return vec![];
     };
@@ -393,11 +397,11 @@ pub fn finish(ctx: &Ctx, shared: &Shared, check: &dyn StateCheck, fin: Finish) -
     }
 
     let mut replay_paths = vec![];
-    let _ = std::fs::remove_dir_all(format!("{VERIF}/replays/{property}"));
+    let _ = std::fs::remove_dir_all(format!("{}/replays/{property}", verif_root()));
     if !unlisted.is_empty() {
         // replay-twice rule on the smallest unlisted violation of each signature
         let mut seen_sig = std::collections::BTreeSet::new();
-        let dir = format!("{VERIF}/replays/{property}");
+        let dir = format!("{}/replays/{property}", verif_root());
         let _ = std::fs::create_dir_all(&dir);
         for r in &unlisted {
             let sig = format!("{}|{}", r.viol.clause, r.viol.features.join("+"));
@@ -424,7 +428,7 @@ pub fn finish(ctx: &Ctx, shared: &Shared, check: &dyn StateCheck, fin: Finish) -
                 "property": property, "clause": r.viol.clause, "features": r.viol.features, "config": r.viol.config,
                 "observed": r.viol.observed, "expected": r.viol.expected,
                 "text": r.text, "hash_key": [r.key.0.to_string(), r.key.1.to_string()],
-                "replay": format!("{VERIF}/bin/check {property} --replay {path}"),
+                "replay": format!("{}/bin/check {property} --replay {path}", verif_root()),
             });
             std::fs::write(&path, serde_json::to_string_pretty(&rec).unwrap()).ok();
             replay_paths.push((path, r.clone()));
@@ -511,8 +515,8 @@ pub fn finish(ctx: &Ctx, shared: &Shared, check: &dyn StateCheck, fin: Finish) -
         "violations": unlisted_total,
         "exit_code": exit,
     });
-    let _ = std::fs::create_dir_all(format!("{VERIF}/evidence"));
-    let evpath = format!("{VERIF}/evidence/{property}.json");
+    let _ = std::fs::create_dir_all(format!("{}/evidence", verif_root()));
+    let evpath = format!("{}/evidence/{property}.json", verif_root());
     if let Err(e) = std::fs::write(&evpath, serde_json::to_string_pretty(&ev).unwrap()) {
         eprintln!("MACHINERY: cannot write evidence: {e}");
         exit = 2;
